@@ -191,6 +191,10 @@ class ProgSet:
         def one(k):
             r = subprocess.run(["timeout", "3", exe, str(k)], stdout=subprocess.PIPE, stderr=subprocess.PIPE, text=True, errors="replace",
                                preexec_fn=core._limits)
+            if r.returncode == 124 and self.cases[k][1] != "TIMEOUT":
+                # not expected to hang: rule out a loaded machine before calling it non-termination
+                r = subprocess.run(["timeout", "30", exe, str(k)], stdout=subprocess.PIPE, stderr=subprocess.PIPE, text=True,
+                                   errors="replace", preexec_fn=core._limits)
             if r.returncode == 124:
                 return k, "TIMEOUT"
             for line in r.stdout.splitlines():
